@@ -57,7 +57,7 @@ class Lit:
             return "DOTSIG"
         if text == CACHEFN:
             return "CACHEFN"
-        if _HEX32.match(text):
+        if _HEX32.fullmatch(text):
             if text not in self.ids:
                 self.ids[text] = f"i{len(self.ids)}"
             return self.ids[text]
@@ -131,8 +131,14 @@ def coq_op(L, op):
     n = coq_nat
     if k == "NewSession":
         return f"(ONewSession {L.path([op[1]])})"
-    if k == "OpenSp":
+    if k in ("OpenSp", "OpenSpLive"):
+        # OpenSpLive: the same state point, some of whose nested values are handed over as LIVE collections of a job
+        # document (the model has plain values only: open_job must take the data as it is at the time of the call)
         return f"(OOpenSp {n(op[1])} {L.json(untyped(op[2]))})"
+    if k == "DocEditIn":
+        # ["DocEditIn", h, key, steps, act, typed value of doc[key] afterwards]: an in-place change below document key
+        # op[2] (doc[key]...[k] = v / .append(v)): the model is value based, it sets the key to the resulting value
+        return f"(ODocSet {n(op[1])} {L.s(op[2])} {L.json(untyped(op[5]))})"
     if k == "OpenId":
         return f"(OOpenId {n(op[1])} {L.s(op[2])})"
     if k == "Init":
@@ -596,6 +602,34 @@ class World:
                 self.args[len(H)] = arg
                 H.append(j)
                 return ["str", j.id]
+            if k == "OpenSpLive":
+                # ["OpenSpLive", s, typed_sp, h, [[steps into sp, steps into H[h].document], ...]]
+                arg = untyped(op[2])
+                for sp_steps, doc_steps in op[4]:
+                    live = H[op[3]].document
+                    for st in doc_steps:
+                        live = live[st[1]]
+                    obj = arg
+                    for st in sp_steps[:-1]:
+                        obj = obj[st[1]]
+                    if to_plain(live) != obj[sp_steps[-1][1]]:
+                        raise RuntimeError("generator: the live value differs from the state point's value")
+                    obj[sp_steps[-1][1]] = live
+                j = self.sessions[op[1]].open_job(arg)
+                H.append(j)
+                return ["str", j.id]
+            if k == "DocEditIn":
+                obj = H[op[1]].document[op[2]]
+                for st in op[3]:
+                    obj = obj[st[1]]
+                a = op[4]
+                if a[0] in ("set", "seti"):
+                    obj[a[1]] = untyped(a[2])
+                elif a[0] == "append":
+                    obj.append(untyped(a[1]))
+                elif a[0] == "del":
+                    del obj[a[1]]
+                return ["unit"]
             if k == "MutateArg":
                 arg = self.args[op[1]]
                 if op[4]:   # nested: mutate inside the first container value
